@@ -344,7 +344,14 @@ impl World {
         }
         let prop = attribute(self.cfg.class, rule);
         // keep the first violation per (prop, rule)
-        if !self.violations.iter().any(|v| v.prop == prop && v.rule == rule) {
+        if let Some(v) = self.violations.iter_mut().find(|v| v.prop == prop && v.rule == rule) {
+            // a soft report followed by a hard one of the same rule: keep the first witness, record
+            // that it became a hard fault (a count that is off, then a handle to a destroyed value)
+            if hard && !v.hard {
+                v.hard = true;
+                v.msg = format!("{}; then: {}", v.msg, msg);
+            }
+        } else {
             self.violations.push(Violation {
                 prop,
                 rule,
